@@ -21,7 +21,7 @@ SPEC = {
     "assumptions": ["molecules <= 40 atoms"],
     "monitors_required": ["c11_norm_compare", "c11_idempotence", "respeller_validated"],
     "required_obs": {"quick": ["respell/renumber-within-blocks", "respell/tuple-permutation", "respell/endpoint-swap", "respell/tuple-repetition", "respell/block-permutation",
-                               "respell/block-split", "respell/key-order-swap", "cov_hand_style_base", "cov_canonical_base", "cov_bondless_labelled_base"]},
+                               "respell/block-split", "respell/key-order-swap", "cov_hand_style_base", "cov_canonical_base", "cov_bondless_labelled_base", "cov_ring_fragments_plus_acyclic_fragment"]},
     "watchdog_s": {"quick": 900, "thorough": 3600},
 }
 PLAN = {"quick": {"canonical": 1800, "hand": 1800, "k": 3}, "thorough": {"canonical": 18000, "hand": 18000, "k": 6}}
@@ -89,9 +89,11 @@ def run(ctx):
     plan = PLAN[ctx.tier]
     rng = ctx.rng
     for k in range(common.share(ctx, plan["canonical"])):
-        mol = rng.choice([G.random_organic, G.symmetric, G.multi_component, G.all_elements])(rng)
+        mol = rng.choice([G.random_organic, G.symmetric, G.multi_component, G.all_elements, G.ring_salts, G.ring_salts, G.mixed_hydrogens, G.deep_refinement])(rng)
         if len(mol.atoms) > 40:
             continue
+        if mol.cls == "M12":
+            ctx.count("cov_ring_fragments_plus_acyclic_fragment")
         s = se.serialize_molecule(c.canonicalize_molecule(bridge.graph_direct(mol, tag=False)))
         run_case(ctx, {"string": s, "origin": "pipeline", "vseed": f"{ctx.seed}/{ctx.shard}/c{k}"})
     # bond-less molecules (empty tuple section) with several atoms of one element that differ in isotope/radical labels
